@@ -512,6 +512,12 @@ def run_config(config, bundle, request, world, stream, policy=None,
     return out
 
 
+def _other_tasks(loop, me):
+    # all_tasks() is a set (address-ordered): sort by the deterministic names
+    return sorted((t for t in asyncio.all_tasks(loop) if t is not me),
+                  key=lambda t: int(t.get_name().rsplit("-", 1)[1]))
+
+
 def _settle_and_close(loop, kernel):
     """After the main result is known: let leftover tasks and kernel items run
     (late events matter to the exactly-once oracles), then close."""
@@ -521,7 +527,7 @@ def _settle_and_close(loop, kernel):
         idle = 0
         me = asyncio.current_task()
         while idle < 3:
-            others = [t for t in asyncio.all_tasks(loop) if t is not me]
+            others = _other_tasks(loop, me)
             if kernel.heap:
                 idle = 0
                 kernel.step()
@@ -531,7 +537,7 @@ def _settle_and_close(loop, kernel):
                 await asyncio.sleep(0)
             else:
                 break
-        others = [t for t in asyncio.all_tasks(loop) if t is not me]
+        others = _other_tasks(loop, me)
         info["stuck_tasks"] = len(others)
         for t in others:
             t.cancel()
